@@ -387,4 +387,24 @@ theorem C14_inv_folder (n : Node) (op : Op) (j : Nat) (G G' : Folder)
   ⟨C14_inv_events.2.2.2.2.2.2, fun h => (C14_folder_visible_only_by_scan n op j G G' hG hG' h).1,
     C14_inv_events.2.2.2.2.2.1, fun h => C14_folder_actual_only_by_event n op j G G' hG hG' h⟩
 
+/-! ### non-vacuity: the hypotheses of the `C14_inv_*` theorems are met by concrete steps (kernel-evaluated) -/
+
+/-- a fix request changes the actual health of `dns` (hypotheses of `C14_inv_sw_actual`), and the event it contains is `swFixStart` -/
+example :
+    exNode.sws[0]? = some exDns ∧ ((exNode.apply (.sw false "dns" .fix)).sws[0]?.map (·.actual)) = some .fixing ∧
+    exDns.actual ≠ .fixing ∧ Ev.swFixStart ∈ evsFor "health_state_actual" .sw := by decide
+
+/-- a scan request changes the visible health of `dns` (hypotheses of `C14_inv_sw_visible`) -/
+example :
+    ((exNode.apply (.sw false "dns" .scan)).sws[0]?.map (·.visible)) = some .compromised ∧ exDns.visible ≠ .compromised := by
+  decide
+
+/-- a repair request changes the actual health of file `d/a`; a folder corrupt request changes the folder's (hypotheses of
+`C14_inv_file_actual`, `C14_inv_folder`); an osscan + tick changes the file's and the folder's visible health -/
+example :
+    ((exNode.apply (.file "d" "a" .repair)).folders.map (fun G => G.files.map (·.actual))) = [[.good, .good]] ∧
+    ((exNode.apply (.folder "d" .corrupt)).folders.map (·.actual)) = [.corrupt] ∧
+    ((exNode.run [.osScan, .tick]).folders.map (fun G => (G.visible, G.files.map (·.visible)))) = [(.corrupt, [.corrupt, .none])] := by
+  decide
+
 end Primaite.Health
